@@ -347,7 +347,21 @@ func runC01(c *Ctx) {
 	// its decision on all weak orderings, the wiring of the check into the apply functions and the parser's hand-off
 	// are part of this check as well
 	runC09(c)
-
+	// "systematically invalidated … every failure class": an operation whose signature, reveal value, protected header
+	// or delta hash is bad is refused (or degraded) — the acceptance conditions of C02 are refusal classes of this fold
+	runC02(c)
+	// a create / recover whose patch list fails half-way keeps the empty document: that is so only if applying patches
+	// does not write the document it was given (the model already holds it)
+	if ap := c.Method(pComposer, "DocumentComposer", "ApplyPatches"); ap != nil {
+		c.runEffect("C12.E1", []*ssa.Function{ap}, func(f *ssa.Function) []*ssa.Parameter {
+			if f.Signature.Recv() != nil {
+				return f.Params[1:]
+			}
+			return f.Params
+		}, "ApplyPatches")
+	} else {
+		c.Unresolved("C12.E1", "(*DocumentComposer).ApplyPatches")
+	}
 }
 
 func numFields(n *types.Named) int {
